@@ -14,7 +14,7 @@ use std::rc::Rc;
 pub const DEF: PropDef = PropDef {
     id: "C08",
     level: "fault_enumeration",
-    rule: "all sequences of <=4 (thorough <=5) statements over {say \"a\", say x, say x plus 1, listen to x, listen, listen to y at 0, put 1 into z} x 14 inputs (empty, missing final newline, blank lines, non-ASCII, a 9000-byte line, lines ending exactly at / before / after the 8 KiB buffer boundary, invalid UTF-8) x every schedule of environment answers with at most d deviations from the default (writer: 1-byte short write, Interrupted, Ok(0), Err(Other), Err(BrokenPipe); reader: 1-byte read, whole-input read, Interrupted, Err(Other)), d=2 everywhere and d=3 on programs of <=2 statements (thorough: d=2 everywhere, d=3 on <=4, d=4 on <=3); default reader delivers one line per call so that every listen maps to its own read call; a case = (program, input), explored over all its schedules; non-trivial = the program performs at least one I/O call; distinct = distinct (program, input)",
+    rule: "all sequences of <=4 (thorough <=6) statements over {say \"a\", say x, say x plus 1, listen to x, listen, listen to y at 0, put 1 into z} x 14 inputs (empty, missing final newline, blank lines, non-ASCII, a 9000-byte line, lines ending exactly at / before / after the 8 KiB buffer boundary, invalid UTF-8) x every schedule of environment answers with at most d deviations from the default (writer: 1-byte short write, Interrupted, Ok(0), Err(Other), Err(BrokenPipe); reader: 1-byte read, whole-input read, Interrupted, Err(Other)), d=2 everywhere and d=3 on programs of <=2 statements (thorough: d=2 everywhere, d=3 on <=4, d=4 on <=3); default reader delivers one line per call so that every listen maps to its own read call; a case = (program, input), explored over all its schedules; non-trivial = the program performs at least one I/O call; distinct = distinct (program, input)",
     assumptions: &[
         "reference line model from the property text; CR is not in the input alphabet (U-crlf)",
         "the number of read calls per listen is not judged (buffering is allowed); what is judged: every read call happens when exactly the output due before some listen has been written, the first read at the first listen",
@@ -251,7 +251,7 @@ pub struct C08 {
 
 fn build(tier: Tier) -> Box<dyn Check> {
     let s: Space<&'static str> = Space::of(STMTS.to_vec());
-    let progs = s.seq_range(1, tier.pick(4, 5));
+    let progs = s.seq_range(1, tier.pick(4, 6));
     let ins = inputs();
     let idx: Space<usize> = Space::of((0..ins.len()).collect());
     Box::new(C08 { cases: progs.product(&idx, |p, i| (p, i)), inputs: ins, tier })
